@@ -82,6 +82,9 @@ def init_literals(mod, clsname):
                         out.setdefault(t.attr, [] if isinstance(v, ast.List) else ())
                     elif isinstance(v, ast.Dict) and not v.keys:
                         out.setdefault(t.attr, {})
+                    elif isinstance(v, ast.Call) and isinstance(v.func, ast.Name) and not v.args and not v.keywords \
+                            and v.func.id in ('set', 'dict', 'list', 'tuple'):
+                        out.setdefault(t.attr, {'set': set, 'dict': dict, 'list': list, 'tuple': tuple}[v.func.id]())
     return out
 
 
